@@ -1,15 +1,8 @@
 (** C03 — the dispatch chain radixsort_CE3 -> CE2 -> CI3 -> CI2 -> multikey_quicksort -> insertion_sort:
     whatever the memory limit selects, the selected sorter meets the contract. *)
 From Coq Require Import List Bool Arith NArith Lia Sorting.Sorted Sorting.Permutation.
-From TLXV Require Import gen.Sizes_C03_gen C03.Model C03.Spec C03.SpecProofs C03.Lemmas C03.Sorters C03.LcpInsertion C03.Radix8 C03.Mkqs C03.Radix16.
+From TLXV Require Import gen.Sizes_C03_gen C03.Model C03.Spec C03.SpecProofs C03.Lemmas C03.Sorters C03.LcpInsertion C03.Radix8 C03.Mkqs C03.Radix16 C03.InPlace C03.InPlace16.
 Import ListNotations.
-
-(** the one piece of the development that is assumed rather than proved: the in-place cycle-leader permutation of
-    RadixStep_CI2 / RadixStep_CI3 groups the array by character (8-bit) resp. by character pair (16-bit) *)
-Definition InPlaceOK : Prop :=
-  forall dep l bl, all_nulfree l -> buckets8 true dep l = Some bl -> BucketsOK dep l bl.
-Definition InPlace16OK : Prop :=
-  forall dep l bll, all_nulfree l -> buckets16 true dep l = Some bll -> Buckets16OK dep l bll.
 
 (** out-of-place steps need no assumption at all *)
 Lemma no_ip {T : Prop} : false = true -> T. Proof. discriminate. Qed.
@@ -43,8 +36,8 @@ End OutOfPlace.
 Section Dispatch.
   Variable sz : sizes.
   Variable wl : bool.
-  Hypothesis ip_ok : InPlaceOK.
-  Hypothesis ip16_ok : InPlace16OK.
+  Let ip_ok := in_place_ok.
+  Let ip16_ok := in_place16_ok.
 
   Let ins_ok := insertion_ok wl.
   Let mkqs_ok := mkqs_ok sz wl.
@@ -105,6 +98,37 @@ Proof.
   intros HN HL H. unfold sort_strings in H.
   assert (HP : Pre [] l) by (unfold Pre; rewrite Forall_forall; intros x _; reflexivity).
   pose proof (radixsort_CE3_unlimited_ok sz wl fuel [] l lcp out lcp' HP HN HL H) as HO.
+  split; [destruct HO as (P & S & _); split; assumption|]. split.
+  - intros W. subst wl. apply (OutOK_SortedPermLcp l lcp out lcp' HL HO).
+  - intros W. subst wl. destruct HO as (_ & _ & E). exact E.
+Qed.
+
+(** fewer than RADIX = 65536 strings: the 16-bit steps are never selected -- every memory limit, no assumption *)
+Section Small.
+  Variable sz : sizes.
+  Variable wl : bool.
+  Let r8_ci := r8_step_ok sz wl (insertion_ok wl) (mkqs_ok sz wl) true (fun _ => in_place_ok).
+
+  Theorem radixsort_CE3_small_ok fuel mem : forall p l lcp out lcp',
+    N.ltb (nN l) radix16 = true -> Pre p l -> all_nulfree l -> length lcp = length l ->
+    radixsort_CE3 sz wl fuel mem (length p) l lcp = Some (out, lcp') -> OutOK wl l lcp out lcp'.
+  Proof.
+    intros p l lcp out lcp' Hsmall HP HN HL H.
+    unfold radixsort_CE3, radixsort_CE2, radixsort_CI3, radixsort_CI2 in H. rewrite Hsmall in H.
+    destruct (N.ltb (nN l) inssort_threshold); [eapply (insertion_ok wl); eauto|].
+    destruct (mem_short mem _); [|eapply (r8_ce_ok sz wl); eauto].
+    destruct (mem_short mem _); [eapply (mkqs_ok sz wl fuel mem); eauto|eapply r8_ci; eauto].
+  Qed.
+End Small.
+
+Theorem sort_strings_small_ok sz wl fuel mem l lcp out lcp' :
+  N.ltb (nN l) radix16 = true -> all_nulfree l -> length lcp = length l ->
+  sort_strings sz wl fuel mem l lcp = Some (out, lcp') ->
+  SortedPerm l out /\ (wl = true -> LcpExact out lcp') /\ (wl = false -> lcp' = lcp).
+Proof.
+  intros Hs HN HL H. unfold sort_strings in H.
+  assert (HP : Pre [] l) by (unfold Pre; rewrite Forall_forall; intros x _; reflexivity).
+  pose proof (radixsort_CE3_small_ok sz wl fuel mem [] l lcp out lcp' Hs HP HN HL H) as HO.
   split; [destruct HO as (P & S & _); split; assumption|]. split.
   - intros W. subst wl. apply (OutOK_SortedPermLcp l lcp out lcp' HL HO).
   - intros W. subst wl. destruct HO as (_ & _ & E). exact E.
